@@ -347,11 +347,15 @@ def run_case(prop, name, params, budget=None):
             self.base.extend(lits)
 
         def check(self):
-            s = z3.Solver()
-            s.set("timeout", ob_ms)
-            s.add(*self.base)
-            self.last = s
-            return s.check()
+            try:
+                s = z3.Solver()
+                s.set("timeout", ob_ms)
+                s.add(*self.base)
+                self.last = s
+                return s.check()
+            except z3.Z3Exception as e:  # e.g. out of memory on a huge term: inconclusive, never a verdict
+                res["notes"].append(f"solver gave up: {e}")
+                return z3.unknown
 
         def model(self):
             return self.last.model()
@@ -550,17 +554,20 @@ def run_case(prop, name, params, budget=None):
                             seen_p.add(h.get_id())
                             pivs.append(h)
             res["star_obligations"] += 1
-            s_ = z3.Solver()
-            s_.set("timeout", budget.get("star_ms", 3000))
-            s_.add(*pr.pc)
-            s_.add(*pivs)
-            s_.add(z3.Or(*[z3.Not(h) for h in pr.hyps]))
-            t = time.time()
-            r = s_.check()
-            tz += time.time() - t
-            nq += 1
-            if r == z3.unsat:
-                res["star_discharged"] += 1
+            try:
+                s_ = z3.Solver()
+                s_.set("timeout", budget.get("star_ms", 3000))
+                s_.add(*pr.pc)
+                s_.add(*pivs)
+                s_.add(z3.Or(*[z3.Not(h) for h in pr.hyps]))
+                t = time.time()
+                r = s_.check()
+                tz += time.time() - t
+                nq += 1
+                if r == z3.unsat:
+                    res["star_discharged"] += 1
+            except z3.Z3Exception:
+                pass  # not established on this path (informative counter only)
         solver.pop()
     st = eng.stats()
     res.update(explore=st, explore_s=round(t_explore, 3), ob_queries=nq, ob_seconds=round(tz, 3),
